@@ -46,6 +46,7 @@ fn sym_msg(sym: &str) -> Option<Msg> {
         "Have" => Some(Msg::Have(1)),
         "Request" => Some(Msg::Request(0, 0, 1)),
         "Interested" => Some(Msg::Interested),
+        "NotInterested" => Some(Msg::NotInterested),
         "Handshake" => Some(refwire::handshake(&[0; 20], &[0; 20])), // placeholder, see concretize
         _ => None,
     }
@@ -76,7 +77,10 @@ impl Scenario for Timed {
     }
     fn concretize(&self, _w: &World, mon: &Mon, sym: &str) -> Vec<Ev> {
         let mut evs = vec![Ev::AdvanceTo(self.slot_time_ms(mon.slot))];
-        if sym == "Handshake" {
+        if sym == "Rotate" {
+            // a decision of the manager's choke rotation, not a message of the peer
+            evs.push(Ev::Rotate);
+        } else if sym == "Handshake" {
             evs.push(Ev::Feed(0, refwire::encode(&refwire::handshake(_w.t.meta.info_hash(), &_w.peers[0].cfg.id))));
         } else if let Some(m) = sym_msg(sym) {
             evs.push(Ev::Feed(0, refwire::encode(&m)));
@@ -287,6 +291,9 @@ pub fn scenarios(thorough: bool) -> Vec<Timed> {
             Timed { slots: vec![5, 15, 25, 115], symbols: vec!["nothing", "KeepAlive", "Have"], intervals: 8, handshaken: true, outgoing: true },
             Timed { slots: vec![30, 90], symbols: vec!["nothing", "Handshake", "KeepAlive", "Have", "Unchoke"], intervals: 8, handshaken: false, outgoing: true },
             Timed { slots: vec![30, 90], symbols: vec!["nothing", "Handshake", "KeepAlive", "Have", "Unchoke"], intervals: 8, handshaken: false, outgoing: false },
+            // manager decisions (choke rotation) at any slot next to the peer's interest changes
+            Timed { slots: vec![30, 90], symbols: vec!["nothing", "Interested", "NotInterested", "Rotate", "KeepAlive"], intervals: 8, handshaken: true, outgoing: true },
+            Timed { slots: vec![60], symbols: vec!["nothing", "Interested", "Rotate", "KeepAlive", "Have"], intervals: 9, handshaken: true, outgoing: false },
         ]
     } else {
         vec![
@@ -295,6 +302,8 @@ pub fn scenarios(thorough: bool) -> Vec<Timed> {
             // peers that connect (or are connected to) and stay silent, or handshake late
             Timed { slots: vec![60], symbols: vec!["nothing", "Handshake", "KeepAlive", "Have"], intervals: 5, handshaken: false, outgoing: true },
             Timed { slots: vec![60], symbols: vec!["nothing", "Handshake", "KeepAlive", "Have"], intervals: 5, handshaken: false, outgoing: false },
+            // manager decisions (choke rotation: Choke / Unchoke written by the client) at any slot
+            Timed { slots: vec![60], symbols: vec!["nothing", "Interested", "Rotate", "KeepAlive"], intervals: 7, handshaken: true, outgoing: true },
         ]
     }
 }
